@@ -501,10 +501,18 @@ func VHReset() { vhReset() }
 // local is set, points its local ref at the last version. With remote != "" the
 // remote-tracking ref is set too.
 func VHStoreIdentity(r *vrepo.Repo, name string, n int, local bool, remote string) *Identity {
+	return VHStoreIdentityMeta(r, name, n, local, remote, nil)
+}
+
+// VHStoreIdentityMeta is VHStoreIdentity with metadata on the first version.
+func VHStoreIdentityMeta(r *vrepo.Repo, name string, n int, local bool, remote string, meta map[string]string) *Identity {
 	var vs []*version
 	var parent repository.Hash
 	for j := 0; j < n; j++ {
 		v := &version{name: name, nonce: make([]byte, 20), unixTime: 1, id: entity.UnsetId}
+		if j == 0 {
+			v.metadata = meta
+		}
 		parent = vhStoreVersion(r, v, parent)
 		vs = append(vs, v)
 	}
